@@ -230,12 +230,12 @@ func init() {
 		playRenderer(r, ta)
 		z.log = nil
 		playRenderer(r, tb)
-		reused := strings.Join(z.log, " ")
+		reused := strings.Join(z.log, " ") + fmt.Sprintf(" | cs=%d ns=%d", r.CSel(), r.NSel())
 		z2 := &recRasterizer{}
 		r2 := &render.Renderer{}
 		r2.SetRasterizer(z2, rect)
 		playRenderer(r2, tb)
-		return reused + " || " + strings.Join(z2.log, " ")
+		return reused + " || " + strings.Join(z2.log, " ") + fmt.Sprintf(" | cs=%d ns=%d", r2.CSel(), r2.NSel())
 	}
 
 	handlers["EREUSE"] = func(a []string) string {
